@@ -97,7 +97,11 @@ func expectedQueryRows(r *Run, ci int, q QueryOp) []qrow {
 			continue
 		}
 		var doc any
-		valid := json.Unmarshal(st.Body, &doc) == nil
+		text := st.Body
+		if i := strings.IndexByte(string(text), 0); i >= 0 {
+			text = text[:i] // SQLite's JSON functions read the TEXT value up to the first NUL
+		}
+		valid := json.Unmarshal(text, &doc) == nil
 		obj, _ := doc.(map[string]any)
 		ok := true
 		switch q.Kind {
